@@ -15,7 +15,7 @@ func init() {
 	register(&propDef{
 		id: "C17",
 		li: levelInfo{
-			Level: "other",
+			Level:       "other",
 			Explanation: "Static rules on the hot-restart control channel. R1 (table agreement): for every case of the request switch the handler performs exactly the Instance step that belongs to that request constant and then sends the reply whose message-type constant is the request's sibling; the default arm sends the unknown reply; the terminate handler acknowledges before signalling. R2: one loop iteration = one frame read, at most one handler call, executed synchronously (no goroutine), so steps are performed and acknowledged in request order. R3 (bit-level): the length written into header bytes 1-2 and the length the reader composes from them are inverse for all 2^16 values (GF(2)-affine interpretation); type at byte 0, payload from byte 3. R4 (zone domain): the payload slice [3 : 3+Len] has witnesses 3+Len <= bytes read (no garbage accepted) and <= buffer size (no crash). R5: child-side call order: shutdown parent admin, start admin, drain parent listeners, (delayed) terminate parent. R6: draining reaches only StopListen of each processor and acts on a listener that is not bound yet too. Kernel datagram semantics are not decided.",
 			TrustedBase: []string{"go/ssa", "samlint ebits.go, ebounds.go, zone.go"},
 		},
@@ -587,6 +587,14 @@ func checkC17(c *Ctx) {
 		})
 		c.Check(bad == "" && n >= 1, "R6", "drain calls only StopListen", dl.Pos(), "StopListen on every processor of the snapshot", "draining calls "+bad+" on processors: established connections are not kept")
 	}
+	checkDrainLatch(c, "R6")
+	c.Expect("R6", 2)
+}
+
+// checkDrainLatch (C17.R6, C09.R4): the close of the drain latch in listener.Drain is not control-dependent on the
+// listener being bound - a Drain issued before/while binding must still be seen by Serve's bind loop.
+func checkDrainLatch(c *Ctx, rule string) {
+	p := c.P
 	if dr := p.Func("proc", "(*listener).Drain"); dr != nil {
 		drain := p.Field(procPkg, "listener", "drain")
 		// the close of the drain latch must not be control-dependent on the listener being bound
@@ -615,7 +623,6 @@ func checkC17(c *Ctx) {
 		if onceDo != nil {
 			okAlways = escapesWithout(entryPos(dr), func(x ssa.Instruction) bool { return x == onceDo }) == nil
 		}
-		c.Check(okAlways, "R6", "Drain marks the listener drained on every path", dr.Pos(), "the drain latch is closed whether or not the port is bound", "Drain returns without closing the drain latch when the listener is not bound yet: the bind-retry loop keeps going, binds later, and the 'drained' old process accepts new connections")
+		c.Check(okAlways, rule, "Drain marks the listener drained on every path", dr.Pos(), "the drain latch is closed whether or not the port is bound", "Drain returns without closing the drain latch when the listener is not bound yet: the bind-retry loop keeps going, binds later, and the 'drained' old process accepts new connections")
 	}
-	c.Expect("R6", 2)
 }
